@@ -5,6 +5,7 @@ import (
 	"errors"
 	"fmt"
 	"runtime"
+	"sort"
 	"strings"
 	"sync"
 	"sync/atomic"
@@ -33,6 +34,11 @@ type C12Script struct {
 	// ReportWaits: the connection error report only returns after every writer has returned
 	// (a SHIP layer whose close path is entered by a writer waits the same way)
 	ReportWaits bool `json:"reportWaits,omitempty"`
+	// PeerAt: the peer sends a message of its own once that many writes were accepted (one entry per
+	// message); Replies: the reader answers every incoming message with that many writes from inside
+	// HandleIncomingWebsocketMessage, i.e. on the read pump's goroutine, as the SHIP layer does
+	PeerAt  []int `json:"peerAt,omitempty"`
+	Replies int   `json:"replies,omitempty"`
 }
 
 type call struct {
@@ -123,6 +129,58 @@ func runC12(sc C12Script) *c12Result {
 		for s := 0; s < sc.PerWriter; s++ {
 			res.Calls = append(res.Calls, &call{W: w, Seq: s})
 		}
+	}
+	// replies written by the reader from inside the delivery of a peer message (writer numbers 200+)
+	replyBase := len(res.Calls)
+	for i := range sc.PeerAt {
+		for s := 0; s < sc.Replies; s++ {
+			res.Calls = append(res.Calls, &call{W: 200 + i, Seq: s})
+		}
+	}
+	if sc.Replies > 0 && len(sc.PeerAt) > 0 {
+		var delivered atomic.Int64
+		rec.mu.Lock()
+		rec.OnMsg = func([]byte) {
+			i := int(delivered.Add(1)) - 1
+			if i >= len(sc.PeerAt) {
+				return
+			}
+			for s := 0; s < sc.Replies; s++ {
+				c := res.Calls[replyBase+i*sc.Replies+s]
+				closed, _ := sut.IsDataConnectionClosed()
+				c.ClosedSeen = closed
+				c.Start = ticket.Add(1)
+				func() {
+					defer func() {
+						if r := recover(); r != nil {
+							c.Panic = fmt.Sprint(r)
+						}
+					}()
+					if err := sut.WriteMessageToWebsocketConnection(payload(200+i, s, sc.MsgLen)); err != nil {
+						c.Err = err.Error()
+					}
+				}()
+				c.End = ticket.Add(1)
+				mu.Lock()
+				c.Returned = true
+				cond.Broadcast()
+				mu.Unlock()
+			}
+		}
+		rec.mu.Unlock()
+		// the peer's own messages
+		go func() {
+			for _, at := range sc.PeerAt {
+				mu.Lock()
+				for accepted < at && finished < sc.Writers {
+					cond.Wait()
+				}
+				mu.Unlock()
+				if cb.WriteMessage(websocket.BinaryMessage, []byte{1, 2, 3, 4}) != nil {
+					return
+				}
+			}
+		}()
 	}
 	for w := 0; w < sc.Writers; w++ {
 		wg.Add(1)
@@ -356,6 +414,11 @@ func genC12(t *rapid.T) C12Script {
 	if rapid.Bool().Draw(t, "stall") {
 		sc.StallAfter = rapid.IntRange(0, total).Draw(t, "stallAfter")
 	}
+	if rapid.IntRange(0, 2).Draw(t, "peerTalks") == 0 {
+		sc.Replies = rapid.IntRange(1, 3).Draw(t, "replies")
+		sc.PeerAt = rapid.SliceOfN(rapid.IntRange(0, total), 1, 3).Draw(t, "peerAt")
+		sort.Ints(sc.PeerAt)
+	}
 	return sc
 }
 
@@ -380,7 +443,7 @@ func TestC12(t *testing.T) {
 			}
 			nt = sc.Writers >= 2 && late > 0
 		}
-		st.Case(sc, nt, "close:"+sc.CloseKind, fmt.Sprintf("stalled-peer:%v", sc.StallAfter >= 0))
+		st.Case(sc, nt, "close:"+sc.CloseKind, fmt.Sprintf("stalled-peer:%v", sc.StallAfter >= 0), fmt.Sprintf("reader-replies-from-read-pump:%v", sc.Replies > 0))
 		if key != "" {
 			st.Fail(key, msg, sc)
 			rt.Fatalf("%s: %s", key, msg)
